@@ -29,7 +29,7 @@ enum Call {
     Read,
     Close,
     Buf(bool),
-    Fail,
+    Fail(usize),
     FeedSynAck(usize, bool),
     FeedPush(usize),
     FeedFin(usize),
@@ -50,7 +50,8 @@ fn parse_call(tok: &str) -> Call {
         ["X"] => Call::Close,
         ["B0"] => Call::Buf(false),
         ["B1"] => Call::Buf(true),
-        ["FAIL"] => Call::Fail,
+        ["FAIL"] => Call::Fail(0),
+        ["FAIL", k] => Call::Fail(k.parse().unwrap()),
         ["F", "sa", o, ok] => Call::FeedSynAck(o.parse().unwrap(), *ok == "1"),
         ["F", "psh", o] => Call::FeedPush(o.parse().unwrap()),
         ["F", "fin", o] => Call::FeedFin(o.parse().unwrap()),
@@ -303,8 +304,9 @@ async fn run_case(start: bool, groups: Vec<Vec<Call>>, sched: Vec<usize>) -> Str
                             }
                             break "ok";
                         }
-                        Call::Fail => {
-                            wh2.set_fail_at(Some(wh2.total()));
+                        Call::Fail(k) => {
+                            // the transport accepts k more bytes, then every write fails
+                            wh2.set_fail_at(Some(wh2.total() + *k));
                             break "ok";
                         }
                         Call::FeedSynAck(o, ok) => {
